@@ -30,6 +30,10 @@ def evaluate(sd, tier, confirm_only):
     meta = json.load(open(os.path.join(sd, "meta.json")))
     name = os.path.basename(sd)
     res = {"id": name, "property": meta["property"]}
+    if meta.get("retired"):
+        res["status"] = "RETIRED"
+        res["detail"] = meta["retired"]
+        return res
     demo = meta["demo_file"]
     demo_pkg = meta["demo_pkg_dir"]
     clean, patched = copy_repo(name + "-clean"), copy_repo(name + "-patched")
